@@ -201,3 +201,120 @@ Proof.
   rewrite setitem_no_qmark by assumption.
   rewrite (setitem_core_walk _ t x v p u Hc Hne Hw (wfuel_enough x)). cbn [bind]. exact IH.
 Qed.
+
+(* ---- Python indexing ------------------------------------------------------------------------ *)
+Theorem norm_idx_spec len z i :
+  norm_idx len z = Some i <->
+  ((0 <= z < Z.of_nat len)%Z /\ Z.of_nat i = z) \/ ((- Z.of_nat len <= z < 0)%Z /\ Z.of_nat i = (z + Z.of_nat len)%Z).
+Proof.
+  unfold norm_idx.
+  destruct (Z.leb_spec 0 z); destruct (Z.ltb_spec z (Z.of_nat len)); cbn [andb].
+  - split; [intros H'; inversion H'; subst; left; lia|intros [[_ E]|[? _]]; [f_equal; lia|lia]].
+  - destruct (Z.ltb_spec z 0); [lia|]. cbn [andb]. split; [discriminate|intros [[? _]|[? _]]; lia].
+  - destruct (Z.ltb_spec z 0); [|lia]. destruct (Z.leb_spec (- Z.of_nat len) z); cbn [andb].
+    + split; [intros H'; inversion H'; subst; right; lia|intros [[? _]|[_ E]]; [lia|f_equal; lia]].
+    + split; [discriminate|intros [[? _]|[? _]]; lia].
+  - destruct (Z.ltb_spec z 0); [|lia]. destruct (Z.leb_spec (- Z.of_nat len) z); cbn [andb].
+    + split; [intros H'; inversion H'; subst; right; lia|intros [[? _]|[_ E]]; [lia|f_equal; lia]].
+    + split; [discriminate|intros [[? _]|[? _]]; lia].
+Qed.
+
+Theorem norm_idx_none len z :
+  norm_idx len z = None <-> (Z.of_nat len <= z \/ z < - Z.of_nat len)%Z.
+Proof.
+  unfold norm_idx.
+  destruct (Z.leb_spec 0 z); destruct (Z.ltb_spec z (Z.of_nat len)); cbn [andb];
+    destruct (Z.ltb_spec z 0); destruct (Z.leb_spec (- Z.of_nat len) z); cbn [andb];
+    split; try discriminate; try lia; try reflexivity.
+Qed.
+
+(* ---- misses ------------------------------------------------------------------------------------ *)
+Theorem lookup_index_out_of_range fuel root x re rl dflt toks p c items y rest si z :
+  has_path_char x = true -> tokenize x = toks ++ y :: rest ->
+  walk root toks p (Lst c items) ->
+  split_name_index y = Ok ([], IdxStr si) -> plain_idx si -> n0eval si = EvInt z ->
+  norm_idx (length items) z = None ->
+  2 * length toks + 1 <= fuel ->
+  dict_get_core fuel root x re rl dflt = Ok (root, if re then LRaise ExIndex else dflt).
+Proof.
+  intros Hc Ht Hw Hs Hi He Hn Hf. unfold dict_get_core. rewrite Hc, Ht.
+  destruct (find_walk_prefix rl root toks p (Lst c items) Hw (y :: rest) ltac:(congruence) fuel root [] s_root ltac:(lia))
+    as [fstr' [fuel' [H1 [H2 H3]]]].
+  rewrite H3. destruct fuel' as [|f']; [lia|].
+  rewrite (find_idx_oob rl f' root y rest (PAt ([] ++ p)) c items fstr' si z Hs Hi He Hn). reflexivity.
+Qed.
+
+Theorem lookup_unknown_key fuel root x re rl dflt toks p c kvs y rest k ix :
+  has_path_char x = true -> tokenize x = toks ++ y :: rest ->
+  walk root toks p (Dict c kvs) ->
+  split_name_index y = Ok (k, ix) -> plain_key k -> lookup k kvs = None ->
+  2 * length toks + 1 <= fuel ->
+  dict_get_core fuel root x re rl dflt = Ok (root, if re then LRaise ExIndex else dflt).
+Proof.
+  intros Hc Ht Hw Hs Hk Hl Hf. unfold dict_get_core. rewrite Hc, Ht.
+  destruct (find_walk_prefix rl root toks p (Dict c kvs) Hw (y :: rest) ltac:(congruence) fuel root [] s_root ltac:(lia))
+    as [fstr' [fuel' [H1 [H2 H3]]]].
+  rewrite H3. destruct fuel' as [|f']; [lia|].
+  rewrite (find_key_missing rl f' root y rest (PAt ([] ++ p)) c kvs fstr' k ix Hs Hk Hl). reflexivity.
+Qed.
+
+(* ---- statements as used by Props/C01.v --------------------------------------------------------- *)
+Theorem spelled_path_resolves :
+  forall root x p, keys_ok root -> has_path_char x = true -> no_qmark x -> tokenize x <> [] ->
+  spells root p (tokenize x) ->
+  exists v, resolve root p = Some v /\
+    dict_getitem (fuel_for root x) root x = Ok (root, LVal v) /\
+    dict_get_pub (fuel_for root x) root x = Ok (root, LVal v) /\
+    dict_first (fuel_for root x) root x = Ok (root, unwrap_single (LVal v)).
+Proof.
+  intros root x p Hok Hc Hq Hne Hs. destruct (spells_walk root p (tokenize x) Hs Hok) as [v Hw].
+  exists v. now apply lookup_walk.
+Qed.
+
+Theorem index_token_roundtrip :
+  forall z, split_name_index (br (dec_of_Z z)) = Ok ([], IdxStr (dec_of_Z z)) /\ n0eval (dec_of_Z z) = EvInt z.
+Proof. intros z. split; [apply sni_br, clean_idx_dec|apply n0eval_dec]. Qed.
+
+Theorem out_of_range_is_miss :
+  forall fuel root x re rl dflt toks p c items y rest si z,
+  has_path_char x = true -> tokenize x = toks ++ y :: rest ->
+  walk root toks p (Lst c items) ->
+  split_name_index y = Ok ([], IdxStr si) -> plain_idx si -> n0eval si = EvInt z ->
+  (Z.of_nat (length items) <= z \/ z < - Z.of_nat (length items))%Z ->
+  2 * length toks + 1 <= fuel ->
+  dict_get_core fuel root x re rl dflt = Ok (root, if re then LRaise ExIndex else dflt).
+Proof.
+  intros. eapply lookup_index_out_of_range; eauto. now apply norm_idx_none.
+Qed.
+
+(* a concrete instance: {"a": {"b": [[1, 7], 2]}} and the path a/b[0][-1] *)
+Definition ex_root : tree :=
+  Dict true [([97]%N, Dict true [([98]%N, Lst true [Lst true [Leaf (SInt 1); Leaf (SInt 7)]; Leaf (SInt 2)])])].
+Definition ex_x : pstr := [97; 47; 98; 91; 48; 93; 91; 45; 49; 93]%N.   (* a/b[0][-1] *)
+Definition ex_p : path := [PKey [97]%N; PKey [98]%N; PIdx 0; PIdx 1].
+
+Lemma ex_tokens : tokenize ex_x = [[97]%N; [98]%N ++ br (dec_of_Z 0); br (dec_of_Z (Z.of_nat 1 - Z.of_nat 2))].
+Proof. vm_compute. reflexivity. Qed.
+
+Theorem c01_example :
+  exists root x p, keys_ok root /\ has_path_char x = true /\ no_qmark x /\ tokenize x <> [] /\
+                   spells root p (tokenize x) /\ resolve root p = Some (Leaf (SInt 7)).
+Proof.
+  exists ex_root, ex_x, ex_p. split; [|split; [reflexivity|split; [exact I|split]]].
+  - cbn. unfold key_ok, plain_key. repeat split; try reflexivity; try discriminate.
+  - rewrite ex_tokens. discriminate.
+  - split; [|reflexivity]. rewrite ex_tokens. unfold ex_root, ex_p.
+    eapply sp_key; [reflexivity|].
+    eapply sp_keyidx with (si := dec_of_Z (Z.of_nat 0)); [reflexivity|reflexivity|apply spell_fwd|].
+    eapply sp_idx; [reflexivity|apply spell_back|]. constructor.
+Qed.
+
+Theorem set_existing :
+  forall root x v p, keys_ok root -> has_path_char x = true -> no_qmark x -> tokenize x <> [] ->
+  spells root p (tokenize x) ->
+  setitem (wfuel x) root x v = Ok (replace_at root p v).
+Proof.
+  intros root x v p Hok Hc Hq Hne Hs. destruct (spells_walk root p (tokenize x) Hs Hok) as [u Hw].
+  rewrite setitem_no_qmark by assumption.
+  exact (setitem_core_walk _ root x v p u Hc Hne Hw (wfuel_enough x)).
+Qed.
